@@ -516,7 +516,12 @@ func (g *wgen) f64bits() uint64 {
 		0xbff0000000000000, 0x7ff0000000000001 /* signalling NaN */, 0xfff8000000000001, 0x000fffffffffffff /* largest subnormal */, 0x0010000000000000,
 		0x47efffffe0000000 /* MaxFloat32 */, 0x47f0000000000000 /* just above it */, 0x36a0000000000000 /* smallest float32 subnormal */, 0x4340000000000000, /* 2^53 */
 		0x43e0000000000000 /* 2^63 */, 0xc3e0000000000000, 0x41dfffffffc00000 /* MaxInt32 */, 0x3fb999999999999a /* 0.1 */, 0x4059000000000000 /* 100 */}
-	if g.rng.Intn(3) == 0 {
+	switch g.rng.Intn(12) {
+	case 0, 1:
+		return 0 // +0 keeps its weight: the value omitempty and the nullable fast paths look at
+	case 2:
+		return 1 << 63
+	case 3, 4, 5:
 		return specials[g.rng.Intn(len(specials))]
 	}
 	return g.rng.Uint64()
